@@ -26,7 +26,7 @@ func registerC19() {
 		ID:    "C19",
 		Level: "exploration",
 		Rule: "the fitgen command is built from the working tree and run on the 5 bundled SDK workbooks and on variants in which the product cell (column P) of a PRNG, " +
-			"dependency-closed subset of enabled field and sub-field rows is rewritten to 0 or emptied (everything else in the workbook byte-identical); each configuration is run " +
+			"dependency-closed subset of enabled field and sub-field rows - PRNG subsets of 1-140 rows and class-wide selections (every date_time row, every local_date_time row, every array, every string, every coordinate, every row with components, every sub-field, the first / last row of every message, every other row, all unsigned / signed integer rows, everything but timestamps, every field of half of the messages) - is rewritten to 0 or emptied (everything else in the workbook byte-identical); each configuration is run " +
 			"four times into fresh directories (.xlsx with -sdk, and wrapped as FitSDKRelease_X.Y.zip; twice each). Oracles: exit status 0; the four output files byte-identical " +
 			"across all runs; SDK version in header and constants; the generated files compile together with the library's support code (accumu, pfield, latlng, time, types_man, " +
 			"internal/types) in a scratch module, and a dump program linked against them prints every message's struct fields and table entries, which are compared with the " +
@@ -41,6 +41,8 @@ func registerC19() {
 		Main:          c19Main,
 	})
 }
+
+const c19Kinds = 14
 
 var workbookVersions = []string{"16.20", "20.14", "20.27", "20.43", "21.40"}
 
@@ -306,9 +308,15 @@ func c19Main(c *lib.Ctx) {
 	}
 	nvar := int(tierN(c.Tier, 4, 48))
 	var cfgs []c19Config
-	for _, v := range workbookVersions {
+	for wi, v := range workbookVersions {
 		for k := 0; k <= nvar; k++ {
 			cfgs = append(cfgs, c19Config{v, k})
+		}
+		// class-wide selections (variant 100+kind): quick = 3 kinds per workbook, rotating; thorough = all
+		for kind := 0; kind < c19Kinds; kind++ {
+			if c.Tier == "thorough" || (kind+wi)%5 < 2 || kind == (wi*3+int(lib.Seed()))%c19Kinds {
+				cfgs = append(cfgs, c19Config{v, 100 + kind})
+			}
 		}
 	}
 	var mu sync.Mutex
@@ -376,7 +384,59 @@ func c19Run(repo, fitgen, dir string, cfg c19Config) (string, c19Info) {
 		return "harness: " + err.Error(), info
 	}
 	disable := map[int]bool{}
-	if cfg.variant > 0 {
+	if cfg.variant >= 100 {
+		// class-wide selection: every enabled row of one class
+		kind := cfg.variant - 100
+		first, last := map[string]int{}, map[string]int{}
+		for _, r := range rows {
+			if r.Enabled && !r.IsSubfield {
+				if _, ok := first[r.Mesg]; !ok {
+					first[r.Mesg] = r.RowNum
+				}
+				last[r.Mesg] = r.RowNum
+			}
+		}
+		for i, r := range rows {
+			if !r.Enabled {
+				continue
+			}
+			hit := false
+			switch kind {
+			case 0:
+				hit = r.Type == "date_time"
+			case 1:
+				hit = r.Type == "local_date_time"
+			case 2:
+				hit = r.Array != ""
+			case 3:
+				hit = r.Type == "string"
+			case 4:
+				hit = strings.HasSuffix(r.Name, "_lat") || strings.HasSuffix(r.Name, "_long")
+			case 5:
+				hit = len(r.Components) > 0
+			case 6:
+				hit = r.IsSubfield
+			case 7:
+				hit = !r.IsSubfield && first[r.Mesg] == r.RowNum
+			case 8:
+				hit = !r.IsSubfield && last[r.Mesg] == r.RowNum
+			case 9:
+				hit = i%2 == 0
+			case 10:
+				hit = r.Type == "uint8" || r.Type == "uint16" || r.Type == "uint32"
+			case 11:
+				hit = r.Type == "sint8" || r.Type == "sint16" || r.Type == "sint32"
+			case 12: // everything except timestamps: tiny profile
+				hit = r.Type != "date_time"
+			case 13: // every field of every second message
+				hit = len(r.Mesg)%2 == 0
+			}
+			if hit {
+				disable[r.RowNum] = true
+			}
+		}
+	}
+	if cfg.variant > 0 && cfg.variant < 100 {
 		rng := lib.NewRand("C19."+cfg.version, uint64(cfg.variant))
 		var cand []ref.ProfRow
 		for _, r := range rows {
@@ -391,6 +451,8 @@ func c19Run(repo, fitgen, dir string, cfg c19Config) (string, c19Info) {
 		for k := 0; k < n; k++ {
 			disable[cand[rng.Intn(len(cand))].RowNum] = true
 		}
+	}
+	if cfg.variant > 0 {
 		c19Close(rows, disable)
 		var patched int
 		rngE := lib.NewRand("C19.empty."+cfg.version, uint64(cfg.variant))
